@@ -45,6 +45,8 @@ type c09Case struct {
 	Logger bool `json:"console_logger_skipping_this_path,omitempty"`
 	// NoGlobal: the router has no global middleware at all (the chain of a custom NotFound / NotAllowed is then the router's own slice)
 	NoGlobal bool `json:"no_global_middleware,omitempty"`
+	// PreError: the panicking handler records an error (AddError) before it panics
+	PreError bool `json:"error_recorded_before_panic,omitempty"`
 }
 
 type c09Val struct{ A, B int }
@@ -118,9 +120,17 @@ func newC09Router(c c09Case) *c09Router {
 			case "abort-status":
 				// the way an error-page hook usually answers
 				ctx.AbortWithStatus(503, "H")
+			case "status-redispatch":
+				// the hook chooses the status and lets an error-page route produce the body
+				ctx.SetStatus(503)
+				ctx.Req.URL.Path = "/errpage"
+				ctx.Router().HandleContext(ctx)
+			case "json-body":
+				ctx.JSON(503, rux.M{"e": 1})
 			}
 		}
 	}
+	r.GET("/errpage", func(ctx *rux.Context) { ctx.WriteString("H") })
 	if c.Logger {
 		color.SetOutput(io.Discard)
 		r.Use(handlers.ConsoleLogger("/p"))
@@ -143,6 +153,9 @@ func newC09Router(c c09Case) *c09Router {
 	}
 	val := c09Value(c.Value)
 	raise := func(ctx *rux.Context) {
+		if c.PreError {
+			ctx.AddError(errors.New("recorded before the panic"))
+		}
 		if c.Value == "invalid-status" {
 			ctx.SetStatus(99)
 			ctx.WriteString("x") // the commit of status 99 panics inside the caller's writer
@@ -294,7 +307,8 @@ func c09Run(c c09Case, st *fw.Stats) []fw.Viol {
 		panicsMW := c.PanicsMW && c.Where != "onerror"
 		if i := strings.Index(trace, "panic"); i >= 0 {
 			// (an in-chain PanicsHandler resumes the chain after the panicking handler; the statement is silent on that)
-			if !panicsMW && strings.Contains(trace[i:], "enter") {
+			// (... and a hook that re-dispatches the request to an error page runs the global middleware again, by design)
+			if !panicsMW && c.Hook != "status-redispatch" && strings.Contains(trace[i:], "enter") {
 				add("panic:handler-after-panic", fmt.Sprintf("%s: a handler started after the panic: trace [%s]", desc, trace))
 			}
 		} else {
@@ -364,8 +378,15 @@ func c09Run(c c09Case, st *fw.Stats) []fw.Viol {
 				// encoder panicked; a helper that renders into a buffer first sends nothing - both are fine
 				wantBody, committed = wantBody+"cb(", true
 			}
-			if c.Hook == "status-body" || c.Hook == "body" {
+			if c.Hook == "status-body" || c.Hook == "body" || c.Hook == "status-redispatch" {
 				wantBody += "H"
+			}
+			if c.Hook == "json-body" {
+				// (the JSON document of the hook follows whatever was sent before)
+				if !strings.HasPrefix(string(w.body), wantBody) || !strings.Contains(string(w.body)[len(wantBody):], `"e":1`) {
+					add("panic:body", fmt.Sprintf("%s: body %q, expected %q followed by the hook's JSON document", desc, w.body, wantBody))
+				}
+				wantBody = string(w.body)
 			}
 			if c.Hook == "abort-status" {
 				wantBody += "H\n" // http.Error ends the message with a newline
@@ -373,7 +394,7 @@ func c09Run(c c09Case, st *fw.Stats) []fw.Viol {
 			if string(w.body) != wantBody {
 				add("panic:body", fmt.Sprintf("%s: body %q, expected %q", desc, w.body, wantBody))
 			}
-			if !committed && (c.Hook == "status" || c.Hook == "status-body" || c.Hook == "abort-status") && !strings.HasPrefix(firstWH, "WH:503:") {
+			if !committed && (c.Hook == "status" || c.Hook == "status-body" || c.Hook == "abort-status" || c.Hook == "status-redispatch" || c.Hook == "json-body") && !strings.HasPrefix(firstWH, "WH:503:") {
 				add("panic:status", fmt.Sprintf("%s: committed %s, the hook set status 503", desc, firstWH))
 			}
 			if committed && !strings.HasPrefix(firstWH, "WH:200:") {
@@ -441,6 +462,18 @@ func c09Gen(tier string, emit func(c09Case)) {
 									if hk == "absent" || hk == "nothing" || hk == "status" {
 										emit(c09Case{Where: "chain", N: n, Split: sp, Pos: pos, When: when, Value: "write-fails", Hook: hk, Twice: true})
 									}
+									if hk == "status" {
+										// hooks that answer through a re-dispatch to an error page / through the JSON helper (also after an
+										// error was recorded and bytes were sent)
+										for _, h2 := range []string{"status-redispatch", "json-body"} {
+											if h2 == "status-redispatch" && pos < sp[0] {
+												continue // (a panicking GLOBAL middleware would panic again inside the re-dispatch)
+											}
+											for f2 := 0; f2 < 4; f2++ {
+												emit(c09Case{Where: "chain", N: n, Split: sp, Pos: pos, When: when, Value: v, Hook: h2, Committed: f2&1 != 0, PreError: f2&2 != 0})
+											}
+										}
+									}
 									emit(c09Case{Where: "chain", N: n, Split: sp, Pos: pos, When: when, Value: "jsonp-marshal", Hook: hk})
 									emit(c09Case{Where: "chain", N: n, Split: sp, Pos: pos, When: when, Value: "jsonp-marshal", Hook: hk, PanicsMW: true})
 								}
@@ -502,7 +535,7 @@ func c09Gen(tier string, emit func(c09Case)) {
 var c09Spec = fw.Spec[c09Case]{
 	ID:    "C09",
 	Level: "model_checking",
-	Rule: "complete product: chain shapes n<=3 (thorough 5) x every global/group/route split x every panic position x {before Next, after Next, without Next} x panic value {string, error, struct, http.ErrAbortHandler, int} x hook {absent, does nothing, status only, status+body, body only, AbortWithStatus(503, message)} x {PanicsHandler middleware} x {a byte committed before the panic} (+ the panic request issued twice) (+ the router mounted behind a front router that passes its context on with HandleContext) (+ under the Timeout middleware with a deadline that is far away / has already passed) (+ on a caller's writer without Flush) (+ the panicking handler calls Abort first) (+ handlers.ConsoleLogger first in the chain with the request's path on its skip list) (+ the panic raised by the caller's ResponseWriter when the handler commits status 99) (+ the panic raised by a value's MarshalJSON inside the JSONP helper) (+ the panic raised by WriteString on a caller's writer that refuses every byte), plus panics inside global middleware around the built-in 404 / 405 responders and inside NotFound / NotAllowed / OnError handlers (NotFound / NotAllowed also on a router without any global middleware); each followed by every one of 15 follow-up request kinds compared with a fresh identical router; " +
+	Rule: "complete product: chain shapes n<=3 (thorough 5) x every global/group/route split x every panic position x {before Next, after Next, without Next} x panic value {string, error, struct, http.ErrAbortHandler, int} x hook {absent, does nothing, status only, status+body, body only, AbortWithStatus(503, message), status + re-dispatch to an error-page route, a JSON document through the JSON helper (the last two also after the handler recorded an error)} x {PanicsHandler middleware} x {a byte committed before the panic} (+ the panic request issued twice) (+ the router mounted behind a front router that passes its context on with HandleContext) (+ under the Timeout middleware with a deadline that is far away / has already passed) (+ on a caller's writer without Flush) (+ the panicking handler calls Abort first) (+ handlers.ConsoleLogger first in the chain with the request's path on its skip list) (+ the panic raised by the caller's ResponseWriter when the handler commits status 99) (+ the panic raised by a value's MarshalJSON inside the JSONP helper) (+ the panic raised by WriteString on a caller's writer that refuses every byte), plus panics inside global middleware around the built-in 404 / 405 responders and inside NotFound / NotAllowed / OnError handlers (NotFound / NotAllowed also on a router without any global middleware); each followed by every one of 15 follow-up request kinds compared with a fresh identical router; " +
 		"every case is non-trivial (a panic is raised in each)",
 	Assume: []string{"for the in-chain PanicsHandler only 'the panic does not escape' and 'follow-ups are unaffected' are asserted (the statement promises nothing else for it)", "when the hook sets no status, any single committed status is accepted"},
 	Bounds: func(tier string) map[string]any {
